@@ -67,19 +67,19 @@ def run_checks(wt: str) -> dict:
     return {'fired': fired, 'analysis_errors': errors}
 
 
-def confirm(pid: str, k: str, src: str, skip_suite: bool) -> int:
+def confirm(pid: str, k: str, src: str, skip_suite: bool, as_k: str | None = None) -> int:
     patch = os.path.join(src, f'change{k}.diff')
     demo = os.path.join(src, f'demo{k}.py')
     if not (os.path.exists(patch) and os.path.exists(demo)):
         print(f'missing {patch} or {demo}')
         return 2
-    wt = f'/tmp/confirm-{pid}-{k}'
+    wt = f'/tmp/confirm-{pid}-{as_k or k}'
     sh(f'git -C /repo worktree remove --force {wt}')
     rc, out = sh(f'git -C /repo worktree add -q --detach {wt} HEAD')
     if rc:
         print(out)
         return 2
-    meta: dict = {'property': pid, 'change': k, 'confirmed_at': time.strftime('%Y-%m-%dT%H:%M:%SZ', time.gmtime()), 'repo_head': sh('git -C /repo rev-parse --short HEAD')[1].strip()}
+    meta: dict = {'property': pid, 'change': as_k or k, 'confirmed_at': time.strftime('%Y-%m-%dT%H:%M:%SZ', time.gmtime()), 'repo_head': sh('git -C /repo rev-parse --short HEAD')[1].strip()}
     try:
         shutil.copy(demo, os.path.join(wt, 'demo.py'))
         env = dict(os.environ, PYTHONPATH=os.path.join(wt, 'src'))
@@ -106,7 +106,7 @@ def confirm(pid: str, k: str, src: str, skip_suite: bool) -> int:
         print(json.dumps({k_: meta[k_] for k_ in ('demo_on_clean_tree', 'demo_with_change', 'compiles', 'kept')}, indent=1)[:900])
         print('suite:', meta['suite_with_change'].get('passed_all'), '| fired:', {p: v['rules'] for p, v in meta['checks']['fired'].items()}, '| errors:', list(meta['checks']['analysis_errors']))
         if ok:
-            d = os.path.join(SEEDED, f'{pid}-{k}')
+            d = os.path.join(SEEDED, f'{pid}-{as_k or k}')
             os.makedirs(d, exist_ok=True)
             shutil.copy(patch, os.path.join(d, 'patch.diff'))
             shutil.copy(demo, os.path.join(d, 'demo.py'))
@@ -121,29 +121,36 @@ def confirm(pid: str, k: str, src: str, skip_suite: bool) -> int:
         shutil.rmtree(wt, ignore_errors=True)
 
 
-def recheck() -> int:
-    for name in sorted(os.listdir(SEEDED)):
-        d = os.path.join(SEEDED, name)
-        if not os.path.exists(os.path.join(d, 'patch.diff')):
-            continue
-        wt = f'/tmp/recheck-{name}'
+def _recheck_one(name: str) -> str:
+    d = os.path.join(SEEDED, name)
+    wt = f'/tmp/recheck-{name}'
+    sh(f'git -C /repo worktree remove --force {wt}')
+    sh(f'git -C /repo worktree add -q --detach {wt} HEAD')
+    try:
+        rc, out = sh(f'git apply --whitespace=nowarn {d}/patch.diff', cwd=wt)
+        meta = json.load(open(os.path.join(d, 'meta.json')))
+        if rc:
+            meta['checks'] = {'patch_no_longer_applies': out[-200:]}
+        else:
+            meta['checks'] = run_checks(wt)
+        meta['rechecked_at'] = time.strftime('%Y-%m-%dT%H:%M:%SZ', time.gmtime())
+        json.dump(meta, open(os.path.join(d, 'meta.json'), 'w'), indent=1)
+        own = meta['property']
+        f = meta['checks'].get('fired', {})
+        return f"{name}: own property {'CAUGHT ' + ','.join(f[own]['rules']) if own in f else 'missed'}; others {[p for p in f if p != own]}; errors {list(meta['checks'].get('analysis_errors', {}))}"
+    finally:
         sh(f'git -C /repo worktree remove --force {wt}')
-        sh(f'git -C /repo worktree add -q --detach {wt} HEAD')
-        try:
-            rc, out = sh(f'git apply --whitespace=nowarn {d}/patch.diff', cwd=wt)
-            meta = json.load(open(os.path.join(d, 'meta.json')))
-            if rc:
-                meta['checks'] = {'patch_no_longer_applies': out[-200:]}
-            else:
-                meta['checks'] = run_checks(wt)
-            meta['rechecked_at'] = time.strftime('%Y-%m-%dT%H:%M:%SZ', time.gmtime())
-            json.dump(meta, open(os.path.join(d, 'meta.json'), 'w'), indent=1)
-            own = meta['property']
-            f = meta['checks'].get('fired', {})
-            print(f"{name}: own property {'CAUGHT ' + ','.join(f[own]['rules']) if own in f else 'missed'}; others {[p for p in f if p != own]}; errors {list(meta['checks'].get('analysis_errors', {}))}")
-        finally:
-            sh(f'git -C /repo worktree remove --force {wt}')
-            shutil.rmtree(wt, ignore_errors=True)
+        shutil.rmtree(wt, ignore_errors=True)
+
+
+def recheck(only: str | None = None) -> int:
+    from concurrent.futures import ThreadPoolExecutor
+
+    names = [n for n in sorted(os.listdir(SEEDED)) if os.path.exists(os.path.join(SEEDED, n, 'patch.diff')) and (not only or n.startswith(only))]
+    # worktree add/remove is serialised by git's own lock; the checks dominate the time
+    with ThreadPoolExecutor(max_workers=6) as ex:
+        for line in ex.map(_recheck_one, names):
+            print(line, flush=True)
     return 0
 
 
@@ -154,7 +161,8 @@ if __name__ == '__main__':
     ap.add_argument('k', nargs='?')
     ap.add_argument('--src')
     ap.add_argument('--skip-suite', action='store_true')
+    ap.add_argument('--as', dest='as_k', help='store under seeded/<Cxx>-<AS> (round 2 and later)')
     a = ap.parse_args()
     if a.cmd == 'recheck':
-        sys.exit(recheck())
-    sys.exit(confirm(a.pid, a.k, a.src or f'/tmp/wt-{a.pid}', a.skip_suite))
+        sys.exit(recheck(a.pid))
+    sys.exit(confirm(a.pid, a.k, a.src or f'/tmp/wt-{a.pid}', a.skip_suite, a.as_k))
